@@ -872,3 +872,186 @@ def c18_files(ctx):
     finally:
         shutil.rmtree(tmp, ignore_errors=True)
     acc.flush()
+
+
+# ---------------------------------------------------------------------------------------------
+# G6  cached_data written by one loader, read back by FRESH loaders
+# ---------------------------------------------------------------------------------------------
+# The statement: "Writing ... structured data to file and reading them back (... cached-data files) reproduces the same arrays".
+# The first ConfigLoader prepares the samples (angles, per-event weights incl. the options bg_weight / weight_scale / data_weight
+# / data_charge) and writes them; every later loader of the SAME configuration must see exactly these arrays, however often the
+# cache is read.  np.save stores IEEE doubles verbatim, so the comparison is exact (shape, dtype, value) and needs no tolerance.
+
+_CACHE_SAMPLES = ("data", "phsp", "bg", "inmc")
+
+
+def _cache_cards(tier):
+    """(label, options) of the cached-data exploration.  options: sizes per group {sample: [n_group0, n_group1...]}, entries of the
+    data section, `weights`/`charges`: samples that get a per-event weight / charge file, mode: data format ("multi" is the default
+    of ConfigLoader, "simple" is the other registered format and is exercised through config.data)."""
+    cards = []
+
+    def add(label, sizes, extra=None, weights=(), charges=(), mode="multi", sname="s000"):
+        cards.append((label, {"sizes": sizes, "extra": dict(extra or {}), "weights": list(weights), "charges": list(charges), "mode": mode, "structure": sname}))
+
+    for ws_label, ws in (("no_weight_scale", {}), ("weight_scale_false", {"weight_scale": False}), ("weight_scale_true", {"weight_scale": True})):
+        add(ws_label + "/no_bg", {"data": [7], "phsp": [9]}, ws)
+        add(ws_label + "/bg_smaller", {"data": [12], "phsp": [9], "bg": [5]}, dict(ws, bg_weight=0.1))
+        add(ws_label + "/bg_larger", {"data": [6], "phsp": [10], "bg": [15]}, dict(ws, bg_weight=0.25))
+        add(ws_label + "/bg_same_size", {"data": [8], "phsp": [9], "bg": [8]}, dict(ws, bg_weight=0.1))
+        add(ws_label + "/bg_without_bg_weight", {"data": [9], "phsp": [7], "bg": [4]}, ws)
+        add(ws_label + "/two_groups", {"data": [7, 11], "phsp": [9, 6], "bg": [3, 16]}, dict(ws, bg_weight=[0.1, 0.2]))
+        add(ws_label + "/bg_and_inmc", {"data": [10], "phsp": [8], "bg": [4], "inmc": [6]}, dict(ws, bg_weight=0.1, inject_ratio=0.05))
+        add(ws_label + "/weighted_data", {"data": [10], "phsp": [8], "bg": [4]}, dict(ws, bg_weight=0.3), weights=("data", "phsp"), charges=("data",))
+    add("weight_scale_true/scale_list_bg_inmc", {"data": [10], "phsp": [8], "bg": [4], "inmc": [7]}, {"weight_scale": True, "bg_weight": 0.1, "scale_list": ["bg", "inmc"]})
+    add("weight_scale_true/spin_structure", {"data": [9], "phsp": [7], "bg": [4]}, {"weight_scale": True, "bg_weight": 0.1}, sname="s110")
+    add("simple_format/weight_scale_true", {"data": [12], "phsp": [9], "bg": [5]}, {"weight_scale": True, "bg_weight": 0.1}, mode="simple")
+    add("simple_format/no_weight_scale", {"data": [12], "phsp": [9], "bg": [5]}, {"bg_weight": 0.1}, mode="simple")
+    if tier != "quick":
+        for nd, nb in ((1, 2), (2, 1), (25, 60), (60, 25), (33, 1)):
+            for ws in (True, False):
+                add("sizes/data%d_bg%d_weight_scale_%s" % (nd, nb, ws), {"data": [nd], "phsp": [5], "bg": [nb]}, {"weight_scale": ws, "bg_weight": 0.1})
+        for sname in ("s110", "sh00", "f4"):
+            add("structures/%s" % sname, {"data": [7], "phsp": [6], "bg": [3]}, {"weight_scale": True, "bg_weight": 0.2}, sname=sname)
+    return cards
+
+
+@group(["C18"], "iface.C18/cached_data_fresh_loader",
+       ["config_loader.data:MultiData.get_data", "config_loader.data:MultiData.process_scale", "config_loader.data:SimpleData.get_data",
+        "config_loader.data:SimpleData.process_scale", "config_loader.data:SimpleData.load_cached_data", "config_loader.data:SimpleData.save_cached_data",
+        "config_loader.data:SimpleData.get_all_data", "config_loader.config_loader:ConfigLoader.get_all_data", "config_loader.config_loader:ConfigLoader.get_data"],
+       env="tf", kind="B",
+       bound="28 (quick) / 41 (thorough) data sections with cached_data on the (0;0,0,0) model (one on (1;1,1,0); thorough also (1/2;1/2,0,0) and the 4-body f4): "
+             "weight_scale absent / false / true; bg absent, smaller than, larger than, as large as data, with and without bg_weight; two data groups of different "
+             "sizes; inmc; per-event data_weight / phsp_weight / data_charge files; scale_list [bg, inmc]; formats multi (ConfigLoader) and simple (config.data); "
+             "sample sizes 3..16 events (thorough: 1..60); three loaders per section: writer, fresh reader with the source files present, fresh reader with the "
+             "source files removed")
+def c18_cached_fresh(ctx):
+    D = ctx.mod("data")
+    ConfigLoader = ctx.mod("config_loader").ConfigLoader
+    acc = Acc(ctx)
+    cl = {
+        "fresh_loader/get_all_data": "every leaf of get_all_data() (data, phsp, bg, inmc; every group) returned by a FRESH loader that reads the cached_data file equals "
+                                     "bitwise the leaf the loader that wrote the cache computed (same leaf paths, shapes, dtypes, values)",
+        "fresh_loader/get_data": "get_data(idx) of the fresh loader, idx in data / phsp / bg / inmc, has bitwise the leaves of get_data(idx) of the writing loader",
+        "third_run/idempotent": "a third loader (source files removed: it can only succeed through the cache) returns bitwise the same leaves again, and a repeated "
+                                "get_all_data() on one loader returns the same leaves as its first call",
+        "cache_file/unchanged_by_readers": "loaders that read an existing cached_data file leave its bytes unchanged",
+        "bg_weight_leaf/same_in_every_run": "the per-event weight leaf of every sample (the one bg_weight / weight_scale act on) is bitwise the same in the writing run and in "
+                                            "every run that reads the cache (weights are not scaled again)",
+    }
+    for k, c in cl.items():
+        acc.declare(k, c)
+
+    def flat(x):
+        """{sample[group]/leaf path: numpy array}.  The clauses quantify over LEAVES: a sample that is not configured has none, whether the
+        loader spells it None (get_data of the writer) or [None] (get_all_data, and hence get_data of a reader of the cache)."""
+        out = {}
+        for nm, sample in zip(_CACHE_SAMPLES, x):
+            if sample is None:
+                continue
+            groups = sample if isinstance(sample, (list, tuple)) else [sample]
+            for gi, g_ in enumerate(groups):
+                if g_ is None:
+                    continue
+                for p, v in leaves(D.data_to_numpy(g_)):
+                    out["%s[%d]/%s" % (nm, gi, "/".join(str(k) for k in p))] = np.array(v)  # a copy: later in-place changes must not touch the record
+        return out
+
+    def diff(ref, got, only_weight=False):
+        if sorted(ref) != sorted(got):
+            return "leaf paths differ: %s" % sorted(set(ref) ^ set(got))[:6]
+        for k in ref:
+            if only_weight and not k.endswith("/weight"):
+                continue
+            r = struct_equal(got[k], ref[k], k)
+            if r:
+                return r + "  [read from cache vs written]"
+        return ""
+
+    tmp = tempfile.mkdtemp(prefix="vt-c18c-")
+    pools = {}
+    try:
+        with _quiet():
+            for ci, (label, opt) in enumerate(_cache_cards(ctx.tier)):
+                sname = opt["structure"]
+                if sname not in pools:
+                    pools[sname] = M.phsp(ctx, sname, 160, ctx.seed + 186)
+                pool = pools[sname]
+                d = os.path.join(tmp, "card%d" % ci)
+                os.mkdir(d)
+                dsec, src, off = {}, [], 0
+                simple = opt["mode"] == "simple"
+                for key, ns in opt["sizes"].items():
+                    fl = []
+                    for gi, n in enumerate(ns):
+                        lo = (off * 7) % (160 - n)
+                        off += n
+                        fn = os.path.join(d, "%s%d.dat" % (key, gi))
+                        np.savetxt(fn, np.stack([p[lo:lo + n] for p in pool], axis=1).reshape(-1, 4))
+                        fl.append(fn)
+                        src.append(fn)
+                    dsec[key] = fl[0] if simple else ([[f] for f in fl] if len(fl) > 1 else fl)
+                    rs = np.random.RandomState(1860 + ci)
+                    for kind, members in (("weight", opt["weights"]), ("charge", opt["charges"])):
+                        if key in members:
+                            wl = []
+                            for gi, n in enumerate(ns):
+                                fn = os.path.join(d, "%s_%s%d.txt" % (key, kind, gi))
+                                np.savetxt(fn, rs.uniform(0.5, 1.5, size=n) if kind == "weight" else np.where(rs.uniform(size=n) < 0.5, -1.0, 1.0))
+                                wl.append(fn)
+                                src.append(fn)
+                            dsec["%s_%s" % (key, kind)] = wl[0] if (simple or len(wl) == 1) else wl
+                dsec.update(opt["extra"])
+                cache = os.path.join(d, "cache.npy")
+                dsec["cached_data"] = cache
+                if simple:
+                    dsec["format"] = "simple"
+                chains = list(M.STRUCTS[sname]["chains"])[:2]
+                cfg = M.build_config(sname, chains=chains, data=dsec)
+                w = {"card": label, "sample_sizes": opt["sizes"], "data_section": {k: v for k, v in dsec.items() if k not in _CACHE_SAMPLES and not k.endswith(("_weight", "_charge")) or isinstance(v, (int, float))},
+                     "structure": sname, "format": opt["mode"]}
+                ctx.count(key=label, sample=w)
+
+                def run():
+                    c = ConfigLoader(copy.deepcopy(cfg))
+                    src_ = c.data if simple else c
+                    a = flat(src_.get_all_data())
+                    g_ = flat([src_.get_data(i) for i in _CACHE_SAMPLES])
+                    a2 = flat(src_.get_all_data())
+                    return a, g_, a2, c
+
+                first, err = _try(run)
+                if err or not os.path.exists(cache):
+                    acc.add("fresh_loader/get_all_data", False, dict(w, mismatch=err or "the first loader did not write the cached_data file"))
+                    continue
+                keep = [first[3]]  # loaders stay alive: nothing here may depend on object identity being reused
+                with open(cache, "rb") as f:
+                    bytes1 = f.read()
+                acc.add("third_run/idempotent", not diff(first[0], first[2]), dict(w, run="writer, second get_all_data() call", mismatch=diff(first[0], first[2])))
+                for ri, rname in ((2, "fresh loader, source files present"), (3, "fresh loader, source files removed")):
+                    if ri == 3:
+                        for fn in src:
+                            os.remove(fn)
+                    got, err = _try(run)
+                    ww = dict(w, run="%d: %s" % (ri, rname))
+                    if err:
+                        acc.add("fresh_loader/get_all_data" if ri == 2 else "third_run/idempotent", False, dict(ww, mismatch="raised " + err))
+                        continue
+                    keep.append(got[3])
+                    m_all, m_get, m_rep = diff(first[0], got[0]), diff(first[1], got[1]), diff(got[0], got[2])
+                    if ri == 2:
+                        acc.add("fresh_loader/get_all_data", not m_all, dict(ww, mismatch=m_all))
+                        acc.add("fresh_loader/get_data", not m_get, dict(ww, mismatch=m_get))
+                    else:
+                        acc.add("third_run/idempotent", not (m_all or m_get), dict(ww, mismatch=m_all or m_get))
+                    acc.add("third_run/idempotent", not m_rep, dict(ww, mismatch="second get_all_data() call on the same loader: " + m_rep))
+                    m_w = diff(first[0], got[0], only_weight=True) or diff(first[1], got[1], only_weight=True)
+                    acc.add("bg_weight_leaf/same_in_every_run", not m_w, dict(ww, mismatch=m_w))
+                    with open(cache, "rb") as f:
+                        same = f.read() == bytes1
+                    acc.add("cache_file/unchanged_by_readers", same, dict(ww, mismatch="the cached_data file was rewritten by a reader"))
+                del keep
+    finally:
+        shutil.rmtree(tmp, ignore_errors=True)
+    acc.flush()
